@@ -16,6 +16,7 @@ GEnv == \/ \E c \in Conns : Offer(c) /\ (\E nb \in BOOLEAN : hold' = nb /\ sched
         \/ \E k \in Calls : Release(k) /\ (\E nb \in BOOLEAN : hold' = nb /\ sched' = Append(sched, [op |-> "release", c |-> 0, k |-> k, nb |-> nb]))
         \/ Fire /\ (\E nb \in BOOLEAN : hold' = nb /\ sched' = Append(sched, [op |-> "fire", c |-> 0, k |-> 0, nb |-> nb]))
         \/ Len(sched) >= 4 /\ EndIncoming /\ (\E nb \in BOOLEAN : hold' = nb /\ sched' = Append(sched, [op |-> "end_incoming", c |-> 0, k |-> 0, nb |-> nb]))
+        \/ (Len(sched) >= 1 /\ ~ended /\ UNCHANGED vars /\ \E nb \in BOOLEAN : hold' = nb /\ sched' = Append(sched, [op |-> "accept_error", c |-> 0, k |-> 0, nb |-> nb]))
         \/ AgeAll /\ hold' = FALSE /\ sched' = Append(sched, [op |-> "age", c |-> 0, k |-> 0, nb |-> FALSE])
 GNext == (Len(sched) < MaxSteps /\ GEnv) \/ (~hold /\ Sys /\ UNCHANGED <<sched, hold>>) \/ (hold /\ Len(sched) = MaxSteps /\ hold' = FALSE /\ UNCHANGED <<vars, sched>>)
 GSpec == GInit /\ [][GNext]_<<vars, sched, hold>>
